@@ -192,6 +192,21 @@ var hostileURLs = []string{
 	"http://crl.sim/" + strings.Repeat("A", 4000) + ".crl",
 	"http://crl.sim/a%00b.crl",
 	"http://crl.sim/crl_x_tmp",
+	"http://crl.sim/A.CRL",
+	"http://crl.sim/pki/a.crl",
+	"http://crl.sim/pki%2Fa.crl",
+	"http://crl.sim/pki/a%3Bb.crl",
+	"http://crl.sim/pki/a;b.crl",
+}
+
+// nearPairs are pairs of distinct resources (different bytes on the wire, different documents at the origin)
+// that differ only in letter case of the path, in an encoded separator or in an encoded reserved character.
+var nearPairs = [][]string{
+	{"http://crl.sim/a.crl", "http://crl.sim/A.CRL"},
+	{"http://crl.sim/pki/a.crl", "http://crl.sim/pki%2Fa.crl"},
+	{"http://crl.sim/pki/a%3Bb.crl", "http://crl.sim/pki/a;b.crl"},
+	{"http://crl.sim/a.crl", "http://crl.sim//a.crl"},
+	{"http://crl.sim/a.crl", "http://crl.sim/a.crl?x=../../y"},
 }
 
 func runC20(h *Harness) {
@@ -214,8 +229,17 @@ func runC20(h *Harness) {
 	}
 	var locs []*loc20
 	used := map[string]bool{}
+	// half of the runs start with a pair of DIFFERENT resources whose names are easily conflated
+	var forced []string
+	if tp.Chance(1, 2) {
+		forced = nearPairs[tp.Int(len(nearPairs))]
+		sc["near_pair"] = forced
+	}
 	for i := 0; i < nl; i++ {
 		u := hostileURLs[tp.Int(len(hostileURLs))]
+		if i < len(forced) {
+			u = forced[i]
+		}
 		if used[u] {
 			continue
 		}
@@ -274,6 +298,7 @@ func runC20(h *Harness) {
 	}
 	before := outside()
 	stores := map[string]string{} // URL -> store directory
+	usedLocs := map[string]bool{}
 	checkQuiescent := func(n *Node, when string) {
 		h.R.Checks++
 		tree := h.TreeOf(n)
@@ -314,6 +339,7 @@ func runC20(h *Harness) {
 		if c > 0 {
 			h.R.NonTrivial = true
 		}
+		usedLocs = map[string]bool{} // a new instance learns locations anew
 		if c == 0 {
 			n = h.NewNode("n1", cfg)
 		} else {
@@ -382,6 +408,27 @@ func runC20(h *Harness) {
 						}
 					}
 					stores[l.URL] = added[0]
+				}
+			}
+			// distinct resources never answer for one another (fault-free runs: every load succeeds)
+			if !faulty {
+				usedLocs[l.URL] = true
+				for _, u := range locs {
+					if !usedLocs[u.URL] {
+						continue
+					}
+					alias := false
+					for _, o := range locs {
+						if o != u && normSent(o.URL) == normSent(u.URL) {
+							alias = true // the same resource under two spellings: sharing is legitimate
+						}
+					}
+					if alias {
+						continue
+					}
+					if pt := u.Pattern(n); !strings.HasPrefix(pt, "v") {
+						h.Violation("C20.store-identity", "answers-from-another-location", "cycle %d use %d: after loading %.60q the probes for location %.60q show %s instead of its own list: distinct locations share a store or an identifier", c+1, j+1, l.URL, u.URL, pt)
+					}
 				}
 			}
 			checkQuiescent(n, fmt.Sprintf("cycle %d after use %d", c+1, j+1))
